@@ -92,6 +92,13 @@ def run_layout_case(ctx, idx):
             internal = {"data": {"userdef3": rng.normal(size=k),
                                  "userdef4": rng.normal(size=k)},
                         "map": rng.integers(0, k, model["n"])}
+            if rng.random() < 0.5 and "image_bg" not in model["features"]:
+                # shared background rows: a non-scalar feature in the internal basin (only
+                # when the file does not store image_bg itself: a stored feature shadows it)
+                img = model["features"].get("image")
+                shp = img.shape[1:] if img is not None else (8, 9)
+                internal["data"]["image_bg"] = rng.integers(0, 255, (k,) + tuple(shp),
+                                                            dtype=np.uint8)
         extra = []
         kind_basin = rng.random()
         if kind_basin < 0.3:
@@ -134,6 +141,18 @@ def run_layout_case(ctx, idx):
                 topts = {"store_ancillary_features": bool(rng.random() < 0.6),
                          "store_basin_features": bool(rng.random() < 0.7)}
                 out1 = cli.condense(path_in=pin, path_out=tmp / "o1.rtdc", ret_path=True, **topts)
+                if rng.random() < 0.6:
+                    # the condensed file is processed again (the contracts on the task
+                    # functions compare each output with its own input)
+                    nxt = str(rng.choice(["repack", "compress", "condense"]))
+                    if nxt == "repack":
+                        cli.repack(path_in=out1, path_out=tmp / "o2.rtdc", ret_path=True)
+                    elif nxt == "compress":
+                        cli.compress(path_in=out1, path_out=tmp / "o2.rtdc", ret_path=True)
+                    else:
+                        cli.condense(path_in=out1, path_out=tmp / "o2.rtdc", ret_path=True,
+                                     **topts)
+                    ctx.count(f"second_task_after_condense[{nxt}]")
             ctx.ev("task_no_exception")
         except Exception as exc:
             import traceback
